@@ -67,8 +67,15 @@ func genC20(g *gen, seed int64) *Program {
 				h = append(h, Op{K: "send", Msg: small()})
 			}
 			h = append(h, Op{K: "return", St: g.maybeStatus()})
-			if g.p(0.3) {
-				c = append(c, Op{K: "header"})
+			if g.p(0.4) {
+				// Header() once, or polled several times while nothing is received
+				nh := 1
+				if g.p(0.5) {
+					nh = 2 + g.pick(8)
+				}
+				for i := 0; i < nh; i++ {
+					c = append(c, Op{K: "header"})
+				}
 			}
 			for i := 0; i < taken; i++ {
 				c = append(c, Op{K: "recv"})
